@@ -6,7 +6,7 @@
 (* computes in the state reached so far.  TLC is the judge; the harness    *)
 (* that recorded the trace contains no oracle.                             *)
 (***************************************************************************)
-EXTENDS Parse, Abi, StrTab, Header, Json, IOUtils
+EXTENDS Parse, Abi, StrTab, Header, Note, Hash, SymVer, Json, IOUtils
 
 Rec == ndJsonDeserialize(IOEnv.TRACE)
 
@@ -15,9 +15,10 @@ TargetLittle == TRUE          \* the build target of this image (reported in the
 VARIABLES l,        \* next trace line
           slots,    \* slot name -> line of the buffer event that last defined it
           tbl,      \* the lazily parsed table under test: [ty, class, little, buf] or <<>>
+          sv,       \* the symbol version table under test: [class, little, versym, need, def, model] or <<>>
           nbad      \* number of events the specification does not allow
 
-vars == <<l, slots, tbl, nbad>>
+vars == <<l, slots, tbl, sv, nbad>>
 
 Has(e, k) == k \in DOMAIN e
 IsLittle(es) == CASE es \in {"LE", "AnyL"} -> TRUE
@@ -111,10 +112,85 @@ OkTail(e) ==
                     /\ e.res.f.osabi = e.osabi /\ e.res.f.abiversion = e.abiversion
        ELSE Out(e) = "err"
 
+\* C14
+OkNotes(e) ==
+    LET little == IsLittle(e.es)
+        buf == Buf(e, "buf")
+        items == Notes(little, e.align, buf)
+    IN /\ DeclNotesOk(little, e.align, buf, items)
+       /\ Len(items) <= Len(buf)                                         \* C16: at most one item per byte
+       /\ Out(e) = "ok" /\ e.res.n = Len(items) /\ e.res.items = items
+
+\* C11 / C12
+OkHashFn(e) ==
+    IF e.op = "sysv_hash" THEN /\ SysvHash(e.name) = ElfHashRef(e.name)
+                               /\ Out(e) = "ok" /\ e.res.h = ElfHashRef(e.name)
+    ELSE /\ GnuHash(e.name) = Djb2Ref(e.name)
+         /\ Out(e) = "ok" /\ e.res.h = Djb2Ref(e.name)
+
+OkFind(e) ==
+    LET little == IsLittle(e.es)
+        hb == Buf(e, "hash") sy == Buf(e, "sym") st == Buf(e, "str")
+        r == IF e.op = "sysv_find" THEN SysvFind(e.class, little, hb, sy, st, e.name)
+             ELSE GnuFind(e.class, little, hb, sy, st, e.name)
+    IN /\ Sound(e.class, little, sy, st, e.name, e.res)                   \* any table bytes
+       /\ e.wf => Complete(e.class, little, sy, st, e.name, e.first, e.res)
+       /\ Out(e) = r.out                                                  \* conformance with the operational model
+       /\ r.out = "ok" => (e.res.idx = r.idx /\ e.res.sym = r.sym)
+\* a table the generator claims well formed must satisfy the format's own well-formedness predicate
+GenOkFind(e) ==
+    e.wf => IF e.op = "sysv_find" THEN SysvWellFormed(e.class, IsLittle(e.es), Buf(e, "hash"), Buf(e, "sym"), Buf(e, "str"))
+            ELSE GnuWellFormed(e.class, IsLittle(e.es), Buf(e, "hash"), Buf(e, "sym"), Buf(e, "str"))
+
+\* version-record iterators (C13 building blocks, C16 bounds)
+OkVerIter(e) ==
+    LET little == IsLittle(e.es)
+        buf == Buf(e, "buf")
+        kind == CASE e.op = "verdef_iter" -> "verdef" [] e.op = "verneed_iter" -> "verneed"
+                  [] e.op = "verdaux_iter" -> "verdaux" [] e.op = "vernaux_iter" -> "vernaux"
+        cnt == IF kind \in {"verdaux", "vernaux"} THEN ZExt(SubSeq(e.count, 1, 2), 8) ELSE e.count   \* count: u16
+        items == VIter(kind, little, buf, cnt, e.start)
+        AuxOf(i) == LET a == VAll(AuxKind(kind), little, buf, items[i].aux, <<>>)
+                    IN [j \in 1..Len(a) |-> Pub(a[j].f)]
+    IN /\ Len(items) <= Len(buf)                                          \* C16: bounded by the bytes ...
+       /\ (Val(cnt) # Huge => Len(items) <= Val(cnt))                      \* ... and by the declared count
+       /\ Out(e) = "ok" /\ e.res.n = Len(items)
+       /\ Len(e.res.items) = Len(items)
+       /\ \A i \in 1..Len(items) :
+            /\ e.res.items[i].f = Pub(items[i].f)
+            /\ kind \in {"verdef", "verneed"} =>
+                 /\ e.res.items[i].aux = AuxOf(i)
+                 /\ Len(AuxOf(i)) <= Val(items[i].aux.count)
+
+SvOf(e) == [class |-> e.class, little |-> IsLittle(e.es), versym |-> e.versym,
+            need |-> IF Has(e, "need") THEN [buf |-> e.need.buf, count |-> e.need.count, str |-> e.need.str] ELSE <<>>,
+            def |-> IF Has(e, "def") THEN [buf |-> e.def.buf, count |-> e.def.count, str |-> e.def.str] ELSE <<>>,
+            model |-> IF Has(e, "model") THEN e.model ELSE <<>>]
+
+OkSymver(e) ==
+    IF e.op = "symver_req"
+    THEN LET r == GetRequirement(sv.class, sv.little, sv.versym, sv.need, e.i)
+         IN /\ Out(e) = r.out
+            /\ r.out = "ok" => /\ e.res.file = r.file /\ e.res.name = r.name /\ e.res.hash = r.hash
+                               /\ e.res.flags = r.flags /\ e.res.hidden = r.hidden
+            /\ (sv.model # <<>> /\ sv.need # <<>>) => ReqOk(sv.model, Val(e.i), e.res, sv.need.str)
+            /\ (sv.need = <<>>) => Out(e) = "none"
+    ELSE LET r == GetDefinition(sv.class, sv.little, sv.versym, sv.def, e.i)
+         IN /\ Out(e) = r.out
+            /\ r.out = "ok" => /\ e.res.hash = r.hash /\ e.res.flags = r.flags /\ e.res.hidden = r.hidden
+                               /\ e.res.names = r.names /\ e.res.n = Len(r.names)
+            /\ (sv.model # <<>> /\ sv.def # <<>>) => DefOk(sv.model, Val(e.i), e.res, sv.def.str)
+            /\ (sv.def = <<>>) => Out(e) = "none"
+
 ---------------------------------------------------------------------------
 \* does the specification allow event e in the current state?
 Allowed(e) ==
-    CASE e.op \in {"session", "buf", "tbl_new"} -> TRUE
+    CASE e.op \in {"session", "buf", "tbl_new", "symver_new"} -> TRUE
+      [] e.op = "notes" -> OkNotes(e)
+      [] e.op \in {"sysv_hash", "gnu_hash"} -> OkHashFn(e)
+      [] e.op \in {"sysv_find", "gnu_find"} -> OkFind(e)
+      [] e.op \in {"verdef_iter", "verneed_iter", "verdaux_iter", "vernaux_iter"} -> OkVerIter(e)
+      [] e.op \in {"symver_req", "symver_def"} -> OkSymver(e)
       [] e.op = "read_int" -> OkReadInt(e)
       [] e.op = "parse_at" -> OkParseAt(e)
       [] e.op = "acc" -> OkAcc(e)
@@ -129,7 +205,9 @@ Allowed(e) ==
 NoPanic(e) == Has(e, "res") => Out(e) # "panic"
 NoAlloc(e) == Has(e, "allocs") => e.allocs = 0
 
-Init == l = 1 /\ slots = [x \in {} |-> 0] /\ tbl = <<>> /\ nbad = 0
+GenOk(e) == IF e.op \in {"sysv_find", "gnu_find"} THEN GenOkFind(e) ELSE TRUE
+
+Init == l = 1 /\ slots = [x \in {} |-> 0] /\ tbl = <<>> /\ sv = <<>> /\ nbad = 0
 
 Step ==
     /\ l <= Len(Rec)
@@ -141,6 +219,7 @@ Step ==
           /\ IF vbad THEN PrintT(<<"MISMATCH", l, "value", e.op>>) ELSE TRUE
           /\ IF pbad THEN PrintT(<<"MISMATCH", l, "panic", e.op>>) ELSE TRUE
           /\ IF abad THEN PrintT(<<"MISMATCH", l, "alloc", e.op>>) ELSE TRUE
+          /\ IF ~GenOk(e) THEN PrintT(<<"MISMATCH", l, "gen", e.op>>) ELSE TRUE
           /\ slots' = CASE e.op = "session" -> [x \in {} |-> 0]
                         [] e.op = "buf" -> [x \in (DOMAIN slots) \cup {e.slot} |->
                                                IF x = e.slot THEN l ELSE slots[x]]
@@ -149,6 +228,9 @@ Step ==
                       [] e.op = "tbl_new" -> [ty |-> e.ty, class |-> e.class, little |-> IsLittle(e.es),
                                               buf |-> Buf(e, "buf")]
                       [] OTHER -> tbl
+          /\ sv' = CASE e.op = "session" -> <<>>
+                     [] e.op = "symver_new" -> SvOf(e)
+                     [] OTHER -> sv
     /\ l' = l + 1
 
 Spec == Init /\ [][Step]_vars
